@@ -69,7 +69,8 @@ def load_pcfg(path, skip_brute=False, skip_case=False, folder='Grammar', save_fi
 
 
 def sizes_of(pcfg):
-    return [[len(pcfg.grammar[t]) for t in b['replacements']] for b in pcfg.base]
+    # .get: a loaded structure naming a variable the grammar does not have is the code's problem, not the harness's
+    return [[len(pcfg.grammar.get(t, ())) for t in b['replacements']] for b in pcfg.base]
 
 
 class NodeNamer:
@@ -214,14 +215,19 @@ def run_history(pcfg, cuts, exact=True, with_queue=True, max_pops=None):
     exhausted = False
     raised = None
     for si in range(len(cuts) + 1):
-        if cfg_text is None:
-            q = PcfgQueue(pcfg)
-            saved = None
-        else:
-            cp = configparser.ConfigParser()
-            cp.read_string(cfg_text)
-            saved = cp.getfloat('guessing_info', 'max_probability')
-            q = PcfgQueue(pcfg, cp)
+        try:
+            if cfg_text is None:
+                saved = None
+                q = PcfgQueue(pcfg)
+            else:
+                cp = configparser.ConfigParser()
+                cp.read_string(cfg_text)
+                saved = cp.getfloat('guessing_info', 'max_probability')
+                q = PcfgQueue(pcfg, cp)
+        except Exception as ex:          # the code under test raised while building / restoring the queue
+            raised = repr(ex)
+            sessions.append({'saved': saved if cfg_text is not None else None, 'ev': [], 'quit': None, 'restored': None})
+            break
         sess = {'saved': saved, 'ev': [], 'quit': None,
                 'restored': queue_items(q) if with_queue else None}
         cut = cuts[si] if si < len(cuts) else None
@@ -337,7 +343,7 @@ def random_float_ruleset(rng, path, normalize_base=False):
         return sorted(ps, reverse=True)
 
     terminals = {}
-    alpha_lens = rng.sample([1, 2, 3], rng.randint(1, 2))
+    alpha_lens = rng.sample([1, 2, 3, 10, 12], rng.randint(1, 2))       # two-digit lengths: A10 pairs with C10, not C1
     names = []
     letters = 'abcdefgh'
     for L in alpha_lens:
